@@ -127,32 +127,38 @@ func rootsRun(in *rootsInput, ni int, f *vp.Family, lim int, junk []byte, absKey
 		return rootsReplay{Level: "trie-roots", Family: f.Pos, Base: hex.EncodeToString(f.Base), Cache: lim, Trail: nd.Trail, Hist: nd.Hist, St: nd.St, Cur: nd.Cur, Ri: ri, Key: key, Enc: enc}
 	}
 	for si, a := range nd.Trail {
-		var err error
-		switch a.Name {
-		case "Update", "AtomicUpdate":
-			keys, vals := rootsUpd(f, a.Upd)
-			var r []byte
-			if a.Name == "Update" {
-				r, err = tr.Update(keys, vals)
-			} else {
-				r, err = tr.AtomicUpdate(keys, vals)
+		// a panic inside the code under test is an observation about it, not a harness failure
+		err := rootsGuard(func() (err error) {
+			switch a.Name {
+			case "Update", "AtomicUpdate":
+				keys, vals := rootsUpd(f, a.Upd)
+				var r []byte
+				if a.Name == "Update" {
+					r, err = tr.Update(keys, vals)
+				} else {
+					r, err = tr.AtomicUpdate(keys, vals)
+				}
+				if err == nil {
+					roots = append(roots, append([]byte(nil), r...))
+				}
+			case "Commit":
+				err = tr.Commit()
+			case "Stash":
+				err = tr.Stash(a.Rb)
+			case "SetRoot":
+				tr.Root = roots[a.Ri-1]
+			case "LoadCache":
+				err = tr.LoadCache(roots[a.Ri-1])
+			case "Reopen":
+				tr = NewTrie(roots[a.Ri-1], vhash, store)
+				tr.CacheHeightLimit = lim
+			default:
+				err = fmt.Errorf("harness: unknown life-cycle step %s", a.Name)
 			}
-			if err == nil {
-				roots = append(roots, append([]byte(nil), r...))
-			}
-		case "Commit":
-			err = tr.Commit()
-		case "Stash":
-			err = tr.Stash(a.Rb)
-		case "SetRoot":
-			tr.Root = roots[a.Ri-1]
-		case "LoadCache":
-			err = tr.LoadCache(roots[a.Ri-1])
-		case "Reopen":
-			tr = NewTrie(roots[a.Ri-1], vhash, store)
-			tr.CacheHeightLimit = lim
-		default:
-			panic("unknown life-cycle step " + a.Name)
+			return err
+		})
+		if err != nil && strings.HasPrefix(err.Error(), "harness:") {
+			panic(err.Error())
 		}
 		if err != nil {
 			rep.Violate(map[string]interface{}{"kind": "life-cycle-step-failed", "level": "trie-roots", "step": a.Name, "cache": cacheClass(lim)}, rpOf(0, "", ""),
@@ -185,7 +191,7 @@ func rootsRun(in *rootsInput, ni int, f *vp.Family, lim int, junk []byte, absKey
 	for ri := 1; ri <= len(roots); ri++ {
 		if nd.St[ri-1] == "x" {
 			// given up by the specification (superseded by Update, stashed, lost with the instance, O4): not judged
-			if _, _, _, _, err := tr.MerkleProofR(f.Key(absKeys[0]), roots[ri-1]); err != nil {
+			if err := rootsGuard(func() error { _, _, _, _, e := tr.MerkleProofR(f.Key(absKeys[0]), roots[ri-1]); return e }); err != nil {
 				rep.Bump("note:given-up-root-unprovable")
 			} else {
 				rep.Bump("note:given-up-root-still-resolves")
@@ -201,7 +207,14 @@ func rootsRun(in *rootsInput, ni int, f *vp.Family, lim int, junk []byte, absKey
 				enc := vp.EncName(comp)
 				rp := rpOf(ri, key, enc)
 				rep.Res.Count(fmt.Sprintf("roots:%d:%s:%d:%s:%s", ni, variant, ri, key, enc))
-				m, errText := honestProof(tr, nil, roots[ri-1], ri == nd.Cur, f.Key(key), comp)
+				var m *vp.Msg
+				var errText string
+				if perr := rootsGuard(func() error {
+					m, errText = honestProof(tr, nil, roots[ri-1], ri == nd.Cur, f.Key(key), comp)
+					return nil
+				}); perr != nil {
+					m, errText = nil, perr.Error()
+				}
 				if m == nil {
 					rep.Violate(map[string]interface{}{"kind": "generator-failed", "level": "trie-roots", "root": rootClass(nd, ri), "cache": cacheClass(lim)}, rp,
 						"trie-roots, family %v, cache limit %d: after %s no %s proof for key %s against the retained root #%d (%s): %s", f.Pos, lim, trailText(nd.Trail), enc, key, ri, rootClass(nd, ri), errText)
@@ -256,6 +269,16 @@ func rootsRun(in *rootsInput, ni int, f *vp.Family, lim int, junk []byte, absKey
 			}
 		}
 	}
+}
+
+// rootsGuard runs a call into the code under test; a panic there comes back as an error
+func rootsGuard(fn func() error) (err error) {
+	defer func() {
+		if r := recover(); r != nil {
+			err = fmt.Errorf("PANIC in pkg/trie: %v", r)
+		}
+	}()
+	return fn()
 }
 
 func absVal(v []byte, vals []string) string {
